@@ -1456,7 +1456,15 @@ def run(ctx, anchors=None):
         ctx.site(len(ctors))
         gaps = []
         for c in ctors:
+            if any(i.get("delegating") for i in c.d.get("inits", [])):
+                continue      # a delegating constructor: the members are the target constructor's business
             inited = {i.get("field") for i in c.d.get("inits", []) if i.get("field")}
+            # assignments that are statements of the constructor's body itself (before anything conditional) initialise as well
+            for st in (c.body.get("ch", []) if c.body.get("k") == "block" else []):
+                if st is None or st.get("k") not in ("assign", "decl", "call", "mcall", "opcall"):
+                    break
+                if st["k"] == "assign" and st.get("op") == "=" and st["lhs"].get("k") == "mem" and (st["lhs"].get("base") or {}).get("k") == "this":
+                    inited.add(st["lhs"]["n"])
             miss = [x for x in sc if x not in inited]
             if miss:
                 gaps.append((c.params[0].get("ty") if c.params else "()", miss))
@@ -1510,7 +1518,9 @@ def run(ctx, anchors=None):
                 if len(f.nodes()) > 900:
                     skipped21.append("%s: too large to enumerate" % f.name)
                     continue
-                X = _sx.Explorer(prog, inline=lambda fn, n_: False, transparent=lambda n_: True)
+                # small helpers are part of the caller's decision (a predicate such as `static bool HasSchnorrSighash(SigVersion)`)
+                X = _sx.Explorer(prog, inline=lambda fn, n_: fn.body is not None and fn.id not in targets and len(fn.nodes()) <= 60 and (auth(fn) or fn.file == f.file),
+                                 transparent=lambda n_: True)
                 try:
                     outs = X.explore(f, this=("a", "this"), limit=600)
                 except _sx.Unsupported as e:
@@ -1595,7 +1605,7 @@ def run(ctx, anchors=None):
     # ---- R15.22 a stream that could not be opened is not used: fopen returns null for a path that cannot be opened (a read-only
     # working directory for the history file, a missing data set); every use of the result lies on the non-null side of a test.
     ctx.rule("R15.22", "the result of fopen is tested, and not used on the null side")
-    from .common import call_result_edges
+    from .common import call_result_edges, null_test_edges
     n22 = 0
     for f in sorted(fb.funcs.values(), key=lambda f_: f_.id):
         if f.body is None or not auth(f) or (f.file, f.line, "R15.22") in done21:
@@ -1608,7 +1618,6 @@ def run(ctx, anchors=None):
         for cn in opens:
             n22 += 1
             ctx.site()
-            succ, fail = call_result_edges(f, fcfg, cn)
             holder = None
             for n in f.nodes():
                 if n["k"] == "decl":
@@ -1617,6 +1626,10 @@ def run(ctx, anchors=None):
                             holder = d["d"]
                 if n["k"] == "assign" and n["rhs"] is cn and n["lhs"].get("k") == "ref":
                     holder = n["lhs"].get("d")
+            if holder is not None:
+                succ, fail = null_test_edges(f, fcfg, holder)
+            else:
+                succ, fail = call_result_edges(f, fcfg, cn)
             why22 = None
             if fail is None:
                 why22 = "its result is never compared with null"
